@@ -695,7 +695,15 @@ impl JitCompiler {
                     self.emit_mov(mem, src, RCX);
                     self.emit_alu32(mem, 0xd3, 7, dst);
                 }
-                ebpf::LE         => {}, // No-op
+                ebpf::LE         => {
+                    match insn.imm {
+                        // Little-endian host: only truncate to the requested width.
+                        16 => self.emit_alu32_imm32(mem, 0x81, 4, dst, 0xffff),
+                        32 => self.emit_alu32(mem, 0x89, dst, dst),
+                        64 => {},
+                        _ => unreachable!() // Should have been caught by verifier
+                    }
+                },
                 ebpf::BE         => {
                     match insn.imm {
                         16 => {
